@@ -5,7 +5,9 @@
 (* every caller-owned object (resources: deterministic bytes, proto.Equal,  *)
 (* presence bits; environment collections: slice header, every cell up to   *)
 (* capacity, content of aliased elements).  InputsFrozen demands that no    *)
-(* flag is set, whether the evaluation succeeded or failed; NodesAreInput-   *)
+(* flag is set, whether the evaluation succeeded or failed (reeval_differs:  *)
+(* a second evaluation of the same compiled expression gave another result, *)
+(* i.e. the compiled expression was changed); NodesAreInput-                 *)
 (* Nodes demands that every FHIR element in a result is one of the input's   *)
 (* own nodes (r # 0), never a copy.                                          *)
 (***************************************************************************)
@@ -15,7 +17,7 @@ Obs == ndJsonDeserialize(ObsFile)
 NObs == Len(Obs)
 W == 16
 
-Flags == <<"res_bytes", "res_equal", "res_presence", "env_header", "env_cells", "env_spare", "env_content">>
+Flags == <<"res_bytes", "res_equal", "res_presence", "env_header", "env_cells", "env_spare", "env_content", "reeval_differs">>
 Changed(m) == SelectSeq(Flags, LAMBDA f : m[f])
 InputsFrozen(m) == Len(Changed(m)) = 0
 
@@ -29,7 +31,7 @@ JoinF(s) == IF Len(s) = 0 THEN "" ELSE s[1] \o (IF Len(s) > 1 THEN "+" ELSE "") 
 
 Verdict(o) ==
   LET frozen == InputsFrozen(o.mut)
-      own == NodesAreInputNodes(o.out)
+      own == o.checkown => NodesAreInputNodes(o.out)    \* path programs may legitimately yield elements of contained resources (unpacked copies)
       good == frozen /\ own /\ ~IsFailure(o.out)
   IN [id |-> o.id, ok |-> good,
       sig |-> IF good THEN ""
